@@ -679,7 +679,8 @@ MUTANTS = [
     ('shoff-zero', EF, "        if self['e_shoff'] == 0:\n            return 0\n", "", 'I-STRIDE0'),
     ('entsize-guard-gone', EF, "        if self['e_phoff'] > 0 and phentsize < self.structs.Elf_Phdr.sizeof():\n            raise ELFError('Too small e_phentsize: %s' % phentsize)\n", "", 'I-STRIDE0'),
     ('entsize-guard-nonzero', EF, "        if self['e_shoff'] > 0 and shentsize < self.structs.Elf_Shdr.sizeof():", "        if self['e_shoff'] > 0 and shentsize < 0:", 'I-STRIDE0'),
-    ('tags-fixed-index', 'elf/dynamic.py', "        for n in itertools.count():\n            tag = self.get_tag(n)", "        for n in itertools.count():\n            tag = self.get_tag(0)", 'I-PROG'),
+    ('tags-fixed-index', 'elf/dynamic.py', "        for n in itertools.count():\n            tag = self._get_tag(n)\n            if tag['d_tag'] == 'DT_NULL':\n                self._num_tags",
+     "        for n in itertools.count():\n            tag = self._get_tag(0)\n            if tag['d_tag'] == 'DT_NULL':\n                self._num_tags", 'I-PROG'),
     ('tag-stride-zero', 'elf/dynamic.py', "        offset = self._offset + n * self._tagsize", "        offset = self._offset + n % 2 * self._tagsize", 'I-PROG'),
     ('direct-parse', 'elf/sections.py', "            header = struct_parse(self.structs.Elf_Chdr,\n                                  self.stream,\n                                  stream_pos=self['sh_offset'])", "            self.stream.seek(self['sh_offset'])\n            header = self.structs.Elf_Chdr.parse_stream(self.stream)", 'K-'),
     ('cstring-loop', 'common/utils.py', "        if len(chunk) < CHUNKSIZE:\n            break", "        if len(chunk) < CHUNKSIZE and found:\n            break", 'I-PROG'),
@@ -687,6 +688,6 @@ MUTANTS = [
      "        while True:\n            self.elffile.stream.seek(max_chain_pos)\n            cur_hash = struct.unpack(hash_format, self.elffile.stream.read(self._wordsize))[0]\n            if cur_hash & 1:\n                return max_idx + 1\n", 'I-PROG'),
     ('gnuhash-read-padded', 'elf/hash.py', "            cur_hash = struct.unpack(hash_format, self.elffile.stream.read(self._wordsize))[0]\n            if cur_hash & 1:\n                return max_idx + 1\n",
      "            cur_hash = struct.unpack(hash_format, self.elffile.stream.read(self._wordsize).ljust(4, b'\\0'))[0]\n            if cur_hash & 1:\n                return max_idx + 1\n", 'I-PROG'),
-    ('dyn-key-unguarded', 'elf/structs.py', "        if self.e_machine in ENUMMAP_EXTRA_D_TAG_MACHINE:\n            d_tag_dict.update(ENUMMAP_EXTRA_D_TAG_MACHINE[self.e_machine])\n        elif", "        d_tag_dict.update(ENUMMAP_EXTRA_D_TAG_MACHINE[self.e_machine])\n        if", 'K-KEY'),
+    ('dyn-key-unguarded', 'elf/structs.py', "        if self.e_machine in ENUMMAP_EXTRA_D_TAG_MACHINE:\n            d_tag_dict.update(ENUMMAP_EXTRA_D_TAG_MACHINE[self.e_machine])\n        if", "        d_tag_dict.update(ENUMMAP_EXTRA_D_TAG_MACHINE[self.e_machine])\n        if", 'K-KEY'),
     ('parse-error-not-elferror', 'common/exceptions.py', "class ELFParseError(ELFError):", "class ELFParseError(Exception):", 'K-RAISE'),
 ]
